@@ -46,8 +46,6 @@ fn merge_rules() -> Vec<Rewrite> { vec![
 #[rustfmt::skip]
 pub fn predicate_pushdown_rules() -> Vec<Rewrite> { vec![
     pushdown("filter", "?cond", "order", "?keys"),
-    pushdown("filter", "?cond", "limit", "?limit ?offset"),
-    pushdown("filter", "?cond", "topn", "?limit ?offset ?keys"),
     rw!("pushdown-filter-proj";
         "(filter ?cond (proj ?proj ?child))" =>
         "(proj ?proj (filter ?cond ?child))"
@@ -80,21 +78,25 @@ pub fn predicate_pushdown_rules() -> Vec<Rewrite> { vec![
         "(join ?type (and ?cond1 ?cond2) ?left ?right)" =>
         "(join ?type ?cond2 (filter ?cond1 ?left) ?right)"
         if not_depend_on("?cond1", "?right")
+        if join_type_is("?type", LEFT_PUSHABLE)
     ),
     rw!("pushdown-join-condition-left-1";
         "(join ?type ?cond1 ?left ?right)" =>
         "(join ?type true (filter ?cond1 ?left) ?right)"
         if not_depend_on("?cond1", "?right")
+        if join_type_is("?type", LEFT_PUSHABLE)
     ),
     rw!("pushdown-join-condition-right";
         "(join ?type (and ?cond1 ?cond2) ?left ?right)" =>
         "(join ?type ?cond2 ?left (filter ?cond1 ?right))"
         if not_depend_on("?cond1", "?left")
+        if join_type_is("?type", RIGHT_PUSHABLE)
     ),
     rw!("pushdown-join-condition-right-1";
         "(join ?type ?cond1 ?left ?right)" =>
         "(join ?type true ?left (filter ?cond1 ?right))"
         if not_depend_on("?cond1", "?left")
+        if join_type_is("?type", RIGHT_PUSHABLE)
     ),
     rw!("pushdown-filter-apply-left";
         "(filter ?cond (apply ?type ?left ?right))" =>
@@ -472,6 +474,19 @@ fn has_vector_index(
         }
         false
     }
+}
+
+/// Join types for which a condition on the left side only can become a filter on the left
+/// input: the other types have to keep (or emit NULL-padded) the left rows failing it.
+const LEFT_PUSHABLE: &[Expr] = &[Expr::Inner, Expr::Semi, Expr::RightOuter];
+/// Join types for which a condition on the right side only can become a filter on the right
+/// input.
+const RIGHT_PUSHABLE: &[Expr] = &[Expr::Inner, Expr::Semi, Expr::Anti, Expr::LeftOuter];
+
+/// Returns true if the join type `ty` is one of `types`.
+fn join_type_is(ty: &str, types: &'static [Expr]) -> impl Fn(&mut EGraph, Id, &Subst) -> bool {
+    let ty = var(ty);
+    move |egraph, _, subst| egraph[subst[ty]].nodes.iter().any(|e| types.contains(e))
 }
 
 /// Returns true if the columns used in `expr` is disjoint from columns produced by `plan`.
